@@ -2,7 +2,14 @@
 
 package cputensor
 
-import "github.com/sahandsafizadeh/qeep/tensor/internal/tensor"
+import (
+	"fmt"
+	"reflect"
+	"sort"
+	"strings"
+
+	"github.com/sahandsafizadeh/qeep/tensor/internal/tensor"
+)
 
 // VerifInspect returns a read-only deep copy of a CPU tensor's private state:
 // the elements in the order of the nested data (walking the data as it
@@ -54,4 +61,43 @@ func VerifInspect(t tensor.Tensor) (flat []float64, nesting []int, dims []int, r
 	walk(ct.data, 0)
 
 	return flat, nesting, dims, rect, true
+}
+
+// VerifScalarFields renders every scalar (bool, integer, float, string) field
+// of the tensor struct as name=value, sorted by name. data, dims and gctx are
+// covered by the other inspection functions; this one makes any additional
+// bookkeeping field (caches, memoised counts, flags) visible to write-set checks.
+func VerifScalarFields(t tensor.Tensor) string {
+	ct, isCPU := t.(*CPUTensor)
+	if !isCPU || ct == nil {
+		return ""
+	}
+	return scalarFields(reflect.ValueOf(ct).Elem())
+}
+
+func scalarFields(v reflect.Value) string {
+	var out []string
+	for i := 0; i < v.NumField(); i++ {
+		f := v.Field(i)
+		name := v.Type().Field(i).Name
+		switch f.Kind() {
+		case reflect.Bool:
+			out = append(out, fmt.Sprintf("%s=%v", name, f.Bool()))
+		case reflect.Int, reflect.Int8, reflect.Int16, reflect.Int32, reflect.Int64:
+			out = append(out, fmt.Sprintf("%s=%d", name, f.Int()))
+		case reflect.Uint, reflect.Uint8, reflect.Uint16, reflect.Uint32, reflect.Uint64:
+			out = append(out, fmt.Sprintf("%s=%d", name, f.Uint()))
+		case reflect.Float32, reflect.Float64:
+			out = append(out, fmt.Sprintf("%s=%v", name, f.Float()))
+		case reflect.String:
+			out = append(out, fmt.Sprintf("%s=%q", name, f.String()))
+		case reflect.Ptr, reflect.Interface, reflect.Slice, reflect.Map, reflect.Func, reflect.Chan:
+			// identity-free: only whether it is set (contents of the known ones are inspected elsewhere)
+			if name != "data" && name != "dims" && name != "gctx" {
+				out = append(out, fmt.Sprintf("%s.set=%v", name, !f.IsNil()))
+			}
+		}
+	}
+	sort.Strings(out)
+	return strings.Join(out, ",")
 }
